@@ -18,7 +18,7 @@ ALPHA = ['[', ']', '(', ')', '{', '}', '.', '-', '+', '&', '*', '~', '!', '/', '
 NUMS = ['1e+5', '0xe+1', '1.e-', '.5.5', '1_000', '0b1e+1', '1e+5-1', '0x1p-3f', '1..2', '1.2.3', '08', '0x', '1uLL', '1e', '1E+', '12ab_c.d', '.1e+', '0e-1+1', '1p+1', '0xep+', '1.', '.1', '1e+e+', '0.0.0e-', '1__', '1.e+.', '9E-9e-9']
 IDS = ['a', 'b_1', '_x', 'L', 'u', 'U', 'u8', 'Lx', 'u8x', 'uu', 'LL', 'x8', 'int1', '_Bool1', 'sizeofx', 'a$']
 OTHERS = ['@', '`'] + [chr(c) for c in (0x80, 0x9f, 0xa0, 0xbf, 0xc0, 0xc1, 0xc3, 0xd7, 0xda, 0xdb, 0xdf, 0xe0, 0xe1, 0xe9, 0xfa, 0xfb, 0xfe, 0xff)]
-LITS = ['"s"', "'c'", 'L"w"', "L'w'", 'u"x"', "u'x'", 'U"y"', "U'y'", 'u8"z"', "u8'z'", '"a\\"b"', "'\\''", '"/*x*/"', '"//"', "'\"'", '"\\\\"', 'u8 "q"', 'L "q"', 'u 8"q"', 'U\'\\n\'', 'LL"x"', 'uu"x"', 'u8u8"x"', 'l"x"']
+LITS = ["'\\%s'" % c for c in "'\"?\\abfnrtv"] + ['"\\%s"' % c for c in "'\"?\\abfnrtv"] + ["'\\0'", "'\\377'", "'\\x7f'", '"\\1\\12\\123\\x1\\xaB"', "L'\\?'", 'u8"\\?\\a"', '"\\\\\\""', '"??/"', "'?'", '"a\\?b"'] + ['"s"', "'c'", 'L"w"', "L'w'", 'u"x"', "u'x'", 'U"y"', "U'y'", 'u8"z"', "u8'z'", '"a\\"b"', "'\\''", '"/*x*/"', '"//"', "'\"'", '"\\\\"', 'u8 "q"', 'L "q"', 'u 8"q"', 'U\'\\n\'', 'LL"x"', 'uu"x"', 'u8u8"x"', 'l"x"']
 
 
 def dump(exe, text, timeout=120):
